@@ -211,8 +211,8 @@ func (fl *Flow) blockOut(b *cfg.Block, in StateSet, visit func(n ast.Node, befor
 		case s0.Kind == cfg.KindSelectCaseBody:
 			// arm dispatch, no condition
 		case cond != nil && fl.Cond != nil:
-			outs[0] = fl.apply(func(s int) StateSet { return fl.Cond(cond, true, s) }, cur)
-			outs[1] = fl.apply(func(s int) StateSet { return fl.Cond(cond, false, s) }, cur)
+			outs[0] = fl.apply(func(s int) StateSet { return fl.condDeep(cond, true, s) }, cur)
+			outs[1] = fl.apply(func(s int) StateSet { return fl.condDeep(cond, false, s) }, cur)
 		}
 	}
 	return outs
@@ -321,4 +321,38 @@ func funcFullName(pkg *packages.Package, call *ast.CallExpr) string {
 		}
 	}
 	return ""
+}
+
+// condDeep refines a state by a branch condition, decomposing !, && and ||
+// (go/cfg keeps a short-circuit condition as one node): the client's Cond
+// callback only ever sees the atomic tests.
+func (fl *Flow) condDeep(cond ast.Expr, branch bool, s int) StateSet {
+	cond = ast.Unparen(cond)
+	switch x := cond.(type) {
+	case *ast.UnaryExpr:
+		if x.Op == token.NOT {
+			return fl.condDeep(x.X, !branch, s)
+		}
+	case *ast.BinaryExpr:
+		then := func(ss StateSet, e ast.Expr, br bool) StateSet {
+			var out StateSet
+			for _, st := range statesOf(ss) {
+				out |= fl.condDeep(e, br, st)
+			}
+			return out
+		}
+		switch x.Op {
+		case token.LOR:
+			if !branch { // both false
+				return then(fl.condDeep(x.X, false, s), x.Y, false)
+			}
+			return fl.condDeep(x.X, true, s) | then(fl.condDeep(x.X, false, s), x.Y, true)
+		case token.LAND:
+			if branch { // both true
+				return then(fl.condDeep(x.X, true, s), x.Y, true)
+			}
+			return fl.condDeep(x.X, false, s) | then(fl.condDeep(x.X, true, s), x.Y, false)
+		}
+	}
+	return fl.Cond(cond, branch, s)
 }
